@@ -551,3 +551,89 @@ Example C14_example_connfail :
   failed s = true /\ hctx_of s 1 = Some 2 /\ hctx_of s 2 = Some 2 /\ out_res s = [(7, 1)] /\
   run_connfail [0; 0; 4; 0; 1; 0; 2; 0; 1; 2] = [2; 1; 2; 2; 2; 0; 0].
 Proof. vm_compute. repeat split. Qed.
+
+(* ---- (d) the caller's cancel on connections that are NOT active (graceful Close in progress) ----
+   Vocabulary.  Model/C14DrainCancel.v carries, next to the call of Model/Cancel.v, the connection
+   state and the channel state of the caller, of every relay hop and of the server ([c14dc_conns]);
+   every decision on the path of a cancel is taken by the definition regenerated from the Go source
+   (Gen/GenC14Cancel.v), which is handed those states: Connection.onCancel, Connection.handleFrameRelay,
+   Connection.handleCancel, messageExchangeSet.handleCancel, messageExchange.handleCancel, as traces
+   of the calls they make (1 = cancel counted as requested, 2 = counted as honoured, 3 = handed to
+   the inbound exchange set, 4 = handed to the exchange, 5 = the handler's context cancelled,
+   6 = cancel message queued by the caller's connection, 7 = connectionError).  Schedules
+   ([c14dc_label]) add a graceful Close of any party with the call in flight ([DDrain]) and
+   arbitrary state changes ([DSet]). *)
+From Verif Require Import Gen.GenFrame Gen.GenC14Cancel Model.C14DrainCancel Proofs.C14DrainCancelP.
+
+(* The tie.  Whether a cancel is sent, forwarded by a relay hop, honoured by the server and
+   delivered to the exchange depends on SendCancelOnContextCanceled / PropagateCancel and on the
+   exchange being registered -- for EVERY connection state and channel state.  (handleCancel:
+   "the only condition is PropagateCancel".) *)
+Theorem C14_cancel_path_conditions : forall (opt : bool) (cs chs : Z) (tr : list Z),
+  (forall serr, c14OnCancel opt cs chs serr tr =
+     if opt then (if serr then (tr ++ [6]) ++ [7] else tr ++ [6]) else tr) /\
+  (forall mt, c14RelayCancelRoute mt opt cs chs = relayRoute mt opt) /\
+  c14RelayCancelRoute c_messageTypeCancel opt cs chs = (if opt then 1 else 0) /\
+  c14HandleCancel opt cs chs tr = ((if opt then ((tr ++ [1]) ++ [2]) ++ [3] else tr ++ [1]), true) /\
+  (forall reg, c14MexsetCancel reg tr = if reg then tr ++ [4] else tr) /\
+  (forall has, c14MexCancel has tr = if has then tr ++ [5] else tr).
+Proof. exact c14dc_gen_all. Qed.
+Print Assumptions C14_cancel_path_conditions.
+
+(* One step of the call, taken with the generated decisions under ANY states of all parties, is
+   the step of Model/Cancel.v: the cancel step does not depend on the connection state. *)
+Theorem C14_cancel_step_state_independent : forall c (k : c14dc_conns) s l,
+  c14dc_base_step c k s l = Cancel.step c s l.
+Proof. exact c14dc_base_step_eq. Qed.
+Print Assumptions C14_cancel_step_state_independent.
+
+(* Every schedule with graceful Closes and arbitrary state changes of any party is, for the call,
+   the schedule without them: all theorems about [Cancel.run] above hold on draining connections. *)
+Theorem C14_drain_erasure : forall c ls,
+  d_base (c14dc_run c ls) = Cancel.run c (c14dc_erase ls).
+Proof. exact c14dc_erasure. Qed.
+Print Assumptions C14_drain_erasure.
+
+(* The clause.  After any schedule (Closes and state changes included) that leaves a handler
+   running, for EVERY connection / channel state [k] of caller, relay hops and server: the
+   call's exchange is still registered, and with propagation enabled on every hop the next wait
+   of a caller whose context is cancelled cancels the handler's context and ends with
+   ErrRequestCancelled. *)
+Theorem C14_cancel_reaches_handler_in_every_connection_state : forall c ls (k : c14dc_conns) l,
+  let s := d_base (c14dc_run c ls) in
+  all_on c = true ->
+  Cancel.hstarted s = true -> Cancel.hctx s = 0 -> Cancel.cctx s = 2 -> Cancel.conn_failed s = false ->
+  caller_waits s l ->
+  Cancel.mex_reg s = true /\
+  Cancel.hctx (c14dc_base_step c k s l) = 2 /\
+  Cancel.cres (c14dc_base_step c k s l) = Some c_ErrCodeCancelled.
+Proof. exact c14dc_cancel_reaches. Qed.
+Print Assumptions C14_cancel_reaches_handler_in_every_connection_state.
+
+(* The server alone: a cancel frame for a registered exchange of a running handler is counted as
+   honoured and cancels the handler's context in every state of the server's connection. *)
+Theorem C14_server_honours_cancel_in_every_state : forall c (k : c14dc_conns) s,
+  Cancel.srv_prop c = true -> Cancel.mex_reg s = true -> Cancel.hctx s = 0 ->
+  Cancel.hctx (c14dc_server_cancel c k s) = 2 /\
+  Cancel.honored (c14dc_server_cancel c k s) = Cancel.honored s + 1.
+Proof. exact c14dc_server_honours. Qed.
+Print Assumptions C14_server_honours_cancel_in_every_state.
+
+(* what the tie excludes: a handleCancel that also asks for an active connection differs from
+   the generated one on a draining connection *)
+Theorem C14_cancel_guard_on_state_differs :
+  exists p cs chs, fst (c14dc_bad_handle_cancel p cs chs []) <> fst (c14HandleCancel p cs chs []).
+Proof. exact c14dc_bad_differs. Qed.
+Print Assumptions C14_cancel_guard_on_state_differs.
+
+Example C14_example_drain :
+  (* server, both relay hops and the caller's channel start a graceful Close with the call in
+     flight (StartClose; the caller's connection, without inbound calls, InboundClosed); the caller
+     cancels and writes on: the handler's context ends Canceled *)
+  let d := c14dc_run c14dc_ex_cfg c14dc_ex_ls in
+  dc_server (d_conns d) = (c_connectionStartClose, c_ChannelStartClose) /\
+  dc_hops (d_conns d) = [(c_connectionStartClose, c_ChannelStartClose); (c_connectionStartClose, c_ChannelStartClose)] /\
+  dc_client (d_conns d) = (c_connectionInboundClosed, c_ChannelStartClose) /\
+  Cancel.hstarted (d_base d) = true /\ Cancel.hctx (d_base d) = 0 /\ Cancel.cctx (d_base d) = 2 /\
+  Cancel.hctx (d_base (c14dc_step c14dc_ex_cfg d (DL LWFrag))) = 2.
+Proof. exact c14dc_example. Qed.
